@@ -93,6 +93,7 @@ func c02Square(c *vCtx, g vGroup) {
 	}
 	// entry pools per ODS row (square under test) and for the other square
 	own := make([][]rowEntry, w)
+	oth := make([][]rowEntry, w) // same rows of the other square, built on demand
 	for j := 0; j < w; j++ {
 		own[j] = c.rowEntries(0, j)
 	}
@@ -178,7 +179,10 @@ func c02Square(c *vCtx, g vGroup) {
 					alts[i] = append(alts[i], ndAlt{en.name, "otherrow:" + en.class, 2, en.e})
 				}
 			}
-			for _, en := range c.rowEntries(1, r) {
+			if oth[r] == nil {
+				oth[r] = c.rowEntries(1, r)
+			}
+			for _, en := range oth[r] {
 				alts[i] = append(alts[i], ndAlt{en.name, "othersquare:" + en.class, 2, en.e})
 			}
 		}
@@ -379,7 +383,7 @@ func c02Groups(tier string) []vGroup {
 	if tier == "thorough" {
 		gs = append(gs,
 			vGroup{Name: "w4-upto3-namespaces", Layouts: only3(sq.Layouts(4, 3, pads)), Depth: 2},
-			vGroup{Name: "w8-fixed-list", Layouts: sq.Fixed8(), Depth: 1},
+			vGroup{Name: "w8-fixed-list", Layouts: sq.Fixed8(), Depth: 2},
 		)
 	}
 	return gs
